@@ -10,6 +10,8 @@
 //     so that the acceptor can tell which incarnation a call hit;
 //   - can fail on demand *before* the call takes effect (FailAPI), and calls a hook before a call
 //     is executed (OnCall) so that a driver can interleave another writer call "while the request
+//     is in flight"; OnProbe is the same for the describe calls: it runs before the probe is
+//     evaluated, so that something (the create of the probed object) can land "while the probe
 //     is in flight".
 //
 // Errors of the describe calls are wrapped with retry.Unrecoverable: the writer retries describe
@@ -70,6 +72,8 @@ type Fake struct {
 	FailAPI map[string]bool // fail these methods (before they take effect)
 	// OnCall is invoked (without the lock) before a mutating call is executed or failed.
 	OnCall func(c *Call)
+	// OnProbe is invoked (without the lock) before a describe call is evaluated.
+	OnProbe func(c *Call)
 
 	// ReplicateMessage: answer
 	TargetPosition string
@@ -195,6 +199,9 @@ func (f *Fake) do(c Call, mut bool, needDB, needColl, needParts bool, eff func()
 	c.Mut = mut
 	if mut && f.OnCall != nil {
 		f.OnCall(&c)
+	}
+	if !mut && f.OnProbe != nil {
+		f.OnProbe(&c)
 	}
 	f.mu.Lock()
 	defer f.mu.Unlock()
